@@ -948,11 +948,11 @@ func (t *Tree) Compile(file string, args []string, out io.Writer) (err error) {
 			upper := element
 			_print("[%v-%v]", escape(lower.String()), escape(upper.String()))
 		case TypePredicate:
-			_print("&{%v}", n)
+			_print("&{%v}", strings.ReplaceAll(n.String(), "*/", "* /"))
 		case TypeStateChange:
-			_print("!{%v}", n)
+			_print("!{%v}", strings.ReplaceAll(n.String(), "*/", "* /"))
 		case TypeAction:
-			_print("{%v}", n)
+			_print("{%v}", strings.ReplaceAll(n.String(), "*/", "* /"))
 		case TypeCommit:
 			_print("commit")
 		case TypeAlternate:
